@@ -10,7 +10,7 @@ go build ./... || { echo "BUILD FAILED"; git checkout -q -- .; exit 2; }
 pkgs=$(go list ./... | grep -v /out)
 if go test -vet=off -count=1 $pkgs >/tmp/confirm-$p-$n.log 2>&1; then echo "suite: PASS with mutation"; else echo "suite: FAIL with mutation"; tail -5 /tmp/confirm-$p-$n.log; fi
 cp out/demo${n}_test.go $pkg/zz_demo_test.go
-if go test -vet=off -count=1 ./$pkg -run '.' >/tmp/confirm-$p-$n-demo.log 2>&1; then echo "demo with mutation: PASS (unexpected)"; else echo "demo with mutation: FAIL (expected)"; fi
+if go test -vet=off -count=1 ./$pkg -run 'Demo|C20M' >/tmp/confirm-$p-$n-demo.log 2>&1; then echo "demo with mutation: PASS (unexpected)"; else echo "demo with mutation: FAIL (expected)"; fi
 git checkout -q -- .
-if go test -vet=off -count=1 ./$pkg -run '.' >/tmp/confirm-$p-$n-demo0.log 2>&1; then echo "demo without mutation: PASS (expected)"; else echo "demo without mutation: FAIL (unexpected)"; tail -5 /tmp/confirm-$p-$n-demo0.log; fi
+if go test -vet=off -count=1 ./$pkg -run 'Demo|C20M' >/tmp/confirm-$p-$n-demo0.log 2>&1; then echo "demo without mutation: PASS (expected)"; else echo "demo without mutation: FAIL (unexpected)"; tail -5 /tmp/confirm-$p-$n-demo0.log; fi
 rm -f $pkg/zz_demo_test.go
